@@ -136,6 +136,8 @@ type taintConfig struct {
 	modelType  func(t *types.Named) bool
 	// writes into a buffer by an external function: callee → (buffer arg index, kind written)
 	bufWriters map[string]Kind
+	// originKill: functions whose result does not carry the text of their arguments (encoders of other data)
+	originKill map[string]bool
 	// trackOrigins: record the access path (Type.Field.Field) of every model field a value derives from
 	trackOrigins bool
 	// loopEscapers: recognise byte-wise escaper loops (if s[i] == c { write escape }) as escaping c
@@ -517,6 +519,15 @@ func (e *taintEngine) allocKind(al *ssa.Alloc, depth int) SK {
 			case ssa.CallInstruction:
 				// the address escapes into a call that may write through it (e.g. json.Unmarshal(&x), buffers)
 				k = skJoin(k, e.bufferWriteKind(v, s, depth+1))
+			case *ssa.MakeInterface:
+				// passed as an interface (io.Writer): the calls that receive the interface value write through it
+				if s.Referrers() != nil {
+					for _, r2 := range *s.Referrers() {
+						if ci, ok := r2.(ssa.CallInstruction); ok {
+							k = skJoin(k, e.bufferWriteKind(v, ci, depth+1))
+						}
+					}
+				}
 			}
 		}
 	}
@@ -766,19 +777,27 @@ func (e *taintEngine) sprintfKind(c *ssa.CallCommon, fi int, depth int) SK {
 		e.cfg.onSprintf(fn, c, format, ops, c.Pos())
 	}
 	verbs := verbKinds(format)
+	var textOrig []string
+	var textODeps uint64
+	var ctxs []sinkCtx
+	if isConst && isMarkupFormat(format) {
+		ctxs = verbContexts(format)
+	}
 	for i, o := range ops {
 		if isConst && i < len(verbs) && strings.IndexByte("dfegxXobcUtp", verbs[i]) >= 0 {
 			continue // numeric / bool / pointer verbs
 		}
-		if isConst && i < len(verbs) && verbs[i] == 'q' {
-			// %q quotes with Go syntax: not an XML sanitiser; keeps the operand's kind
+		ok := e.kind(o, depth+1)
+		k = skJoin(k, ok)
+		if i < len(ctxs) && ctxs[i] == ctxText {
+			textOrig = mergeSrcs(textOrig, ok.orig)
+			textODeps |= ok.odeps | ok.deps
 		}
-		k = skJoin(k, e.kind(o, depth+1))
 	}
 	if isConst && isMarkupFormat(format) {
 		// a markup-bearing format is a sink itself: its operands are judged there (once), and its
-		// result is renderer-built markup
-		return SK{k: KMarkup, orig: k.orig, odeps: k.odeps | k.deps}
+		// result is renderer-built markup; only text-position operands are text that gets drawn
+		return SK{k: KMarkup, orig: textOrig, odeps: textODeps}
 	}
 	return k
 }
@@ -944,6 +963,9 @@ func (e *taintEngine) callKind(c *ssa.Call, resultIdx int, depth int) SK {
 	name := callee.String()
 	if callee.Origin() != nil {
 		name = callee.Origin().String()
+	}
+	if e.cfg.originKill[name] {
+		return sk(KSan)
 	}
 	if e.cfg.sanitizers[name] {
 		out := sk(KSan)
